@@ -1011,6 +1011,105 @@ class Prog:
             else:
                 self.for_stmt(sc, ind, depth, False, force=(g, gv, sc))
 
+    def def_segment_generator(self, sc, ind):
+        """def g(a): <segments> ; n1, .., nk = g(<literal>) ; every nK probed.
+        A segment is a plain `yield <expr>` directly in the function body or a simple for loop (one
+        loop name, directly in the body, over the parameter or a literal) with one or two yields -
+        exactly the shapes whose element ORDER jedi predicts (get_yield_lazy_values) - in any
+        interleaving (yields before, between and after loops, several loops).  The result is
+        consumed POSITION BY POSITION by tuple unpacking, so the order of the element stream is
+        visible at the probes (a `for` over the generator merges all yields)."""
+        r = self.rng
+        self.features.add('generator-segments')
+        g = self.fresh('g')
+        p = 'a%d' % self.k
+        self.emit(ind, 'def %s(%s):' % (g, p))
+        inner = Scope(sc, 'gen', has_params=True)
+        var = Var('T', n=1, xs=None, prov=HOT)
+        var.frozen = True
+        inner.vars[p] = var
+        uses = set([g])
+        self.uses_stack.append(uses)
+        arg_cs = ['V%d' % c for c in r.sample(range(NVAL), r.randint(1, 3))]
+        elems = []          # per yielded position: the class that certainly arrives there, or None
+        kinds = []
+        nseg = r.randint(1, 4)
+        if self.chance(0.5):
+            nseg = max(nseg, 3)
+        for _ in range(nseg):
+            kind = r.choice('YL')
+            if kind == 'L' and len(elems) > 4:
+                kind = 'Y'
+            if len(elems) >= 7:
+                break
+            kinds.append(kind)
+            if kind == 'Y':
+                ex, x, _ = self.expr(inner, 1)
+                self.emit(ind + 1, 'yield ' + ex)
+                elems.append(x if isinstance(x, str) else None)
+                continue
+            if self.chance(0.5):
+                it, xs = p, list(arg_cs)
+            else:
+                it, n, xs, _ = self.seq(inner, allow_names=False)
+                if n > 2 and len(elems) > 2:
+                    it, xs = p, list(arg_cs)
+            v = self.fresh('v')
+            self.emit(ind + 1, 'for %s in %s:' % (v, it))
+            lid = self.open_loop(inner)
+            ev = Var('I', x=None, prov=HOT)
+            ev.frozen = True
+            self.bind(inner, v, ev)
+            y = v
+            if self.chance(0.4):
+                y = self.fresh('n')
+                self.emit(ind + 2, '%s = %s' % (y, r.choice([v, '(%s,)[0]' % v, '(lambda a: a)(%s)' % v])))
+            self.emit(ind + 2, 'yield ' + y)
+            second = None
+            if self.chance(0.3):
+                ex, x, _ = self.expr(inner, 1)
+                self.emit(ind + 2, 'yield ' + ex)
+                second = (x if isinstance(x, str) and v not in ex else None,)
+                kinds[-1] = 'L2'
+            self.close_loop(inner, lid)
+            inner.vars.pop(v, None)
+            inner.vars.pop(y, None)
+            for x in xs:
+                elems.append(x if isinstance(x, str) else None)
+                if second:
+                    elems.append(second[0])
+        self.uses_stack.pop()
+        self.note(uses - {g})
+        gv = Var('G', sig=dict(one=False, uses=frozenset(uses), per=None))
+        gv.calls = 2          # called here, not again
+        self.bind(sc, g, gv)
+        self.features.add('generator-segments:' + '-'.join(kinds))
+        names = [self.fresh('n') for _ in elems]
+        self.emit(ind, '%s%s = %s((%s,))' % (', '.join(names), ',' if len(names) == 1 else '', g,
+                                             ', '.join(c + '()' for c in arg_cs)))
+        pv = self.applied(gv.sig['uses'])
+        for nm, x in zip(names, elems):
+            self.bind(sc, nm, Var('I', x=x, prov=pv))
+        for nm in names:
+            self.probe(sc, ind, only=nm)
+
+
+def gen_segprogram(rng):
+    """programs around generator functions made of top-level yields and simple for loops in any
+    interleaving, unpacked position by position (Prog.def_segment_generator); same info as
+    gen_program"""
+    p = Prog(rng, 10)
+    p.selfnest = False
+    p.prelude()
+    sc = Scope(None, 'module', False)
+    for _ in range(rng.randint(0, 2)):
+        p.assign(sc, 0)
+    for _ in range(rng.randint(1, 2)):
+        p.def_segment_generator(sc, 0)
+    src = '\n'.join(p.lines) + '\n'
+    info = {'exact': {str(k): v for k, v in p.probe_info.items() if v is not None}, 'selfnest': False}
+    return src, info, sorted(p.features)
+
 
 def gen_program(rng, size=None):
     """returns (source, info, sorted feature list); info = {'exact': {probe line: class name where
